@@ -80,7 +80,16 @@ func TestSim(t *testing.T) {
 		fmt.Fprintf(os.Stderr, "harness: unknown property %q (have %v)\n", j.Prop, propIDs())
 		os.Exit(2)
 	}
-	if p.Sim {
+	simProcess := p.Sim
+	if p.SimCase != nil {
+		switch j.Mode {
+		case "worker", "trace":
+			simProcess = strings.HasSuffix(j.Tier, "+sim")
+		case "run", "shrink":
+			simProcess = p.SimCase(loadCase(j.CaseFile))
+		}
+	}
+	if simProcess {
 		simrt.SetSimProcess(true)
 	}
 	switch j.Mode {
@@ -308,6 +317,12 @@ func driver(t *testing.T, p *Property, j job) int {
 				}
 				if simrt.RaceEnabled && wj.MaxRuns > 40 {
 					wj.MaxRuns = 40 // the race detector keeps state per goroutine ever started
+				}
+				if p.SimCase != nil && w%4 == 3 {
+					wj.Tier = j.Tier + "+sim" // this worker runs the property's whole-server cases
+					if wj.MaxRuns > 60 {
+						wj.MaxRuns = 60
+					}
 				}
 				wj.Out = filepath.Join(tmp, fmt.Sprintf("w%d-%d.json", w, round))
 				out, err := selfExec(wj, time.Duration(left+120)*time.Second)
